@@ -116,7 +116,7 @@ Section Render.
     clean (r_source e) /\ free semi (r_source e) /\ free lparen (r_source e) /\
     clean (r_vstr e) /\ free semi (r_vstr e) /\ free rparen (r_vstr e) /\ parse_version (r_vstr e) = Some (r_v e) /\
     clean (r_target e) /\ free semi (r_target e) /\
-    r_args e <> [] /\ Forall arg_ok (r_args e) /\
+    Forall arg_ok (r_args e) /\                       (* zero or more options *)
     Forall body_line_ok (r_body e) /\
     clean (r_whom e) /\ single_sp (sp :: r_whom e) = true /\
     clean (r_date e) /\ parse_date (r_date e) = Some (r_t e).
@@ -144,18 +144,37 @@ Section Render.
   Qed.
   Lemma join_cons2 d (x y : str) r : join d (x :: y :: r) = x ++ d ++ join d (y :: r).
   Proof. reflexivity. Qed.
-  Lemma parse_args_text : forall args, args <> [] -> Forall arg_ok args ->
-    map argf (split comma (join [comma] (map arg_text args) ++ [nl])) = args.
+  Definition keep (e : str) : bool := negb (str_eqb (ctrim e) []).
+  Lemma keep_arg kv w : arg_ok kv -> all_cut w -> keep (arg_text kv ++ w) = true.
+  Proof.
+    destruct kv as [k v]. intros ((Kn&Kl&Kr)&(Vn&Vl&Vr)&Fe&_&_) Hw. cbn [fst snd] in *. unfold keep, arg_text. cbn [fst snd].
+    assert (C : ctrim ((sp :: k ++ equals :: v) ++ w) = k ++ equals :: v).
+    { change ((sp :: k ++ equals :: v) ++ w) with ([sp] ++ (k ++ equals :: v) ++ w).
+      apply ctrim_pad; [apply ac_sp|exact Hw| |].
+      - now apply cclean_l_app.
+      - change (equals :: v) with ([equals] ++ v). rewrite app_assoc. now apply cclean_r_app. }
+    rewrite C. destruct (str_eqb_spec (k ++ equals :: v) []) as [E|_]; [destruct k; discriminate|reflexivity].
+  Qed.
+  Lemma parse_args_text_ne : forall args, args <> [] -> Forall arg_ok args ->
+    map argf (filter keep (split comma (join [comma] (map arg_text args) ++ [nl]))) = args.
   Proof.
     induction args as [|a r IH]; intros NE W; [congruence|]. inversion W as [|? ? Wa Wr]; subst. destruct r as [|b r'].
     - cbn [map join]. rewrite split_one.
-      + cbn [map]. now rewrite (argf_text a [nl] Wa ac_nl).
+      + cbn [filter]. rewrite (keep_arg a [nl] Wa ac_nl). cbn [map]. now rewrite (argf_text a [nl] Wa ac_nl).
       + apply Forall_app. split; [now apply arg_text_free|]. constructor; [discriminate|constructor].
     - cbn [map]. rewrite join_cons2. rewrite <- !app_assoc. cbn [app].
-      rewrite split_cons by (now apply arg_text_free). cbn [map].
+      rewrite split_cons by (now apply arg_text_free). cbn [filter].
+      pose proof (keep_arg a [] Wa ac_nil) as K. rewrite app_nil_r in K. rewrite K. cbn [map].
       f_equal.
       + pose proof (argf_text a [] Wa ac_nil) as E. now rewrite app_nil_r in E.
       + apply (IH ltac:(discriminate) Wr).
+  Qed.
+  (* ... and a header that writes no option at all has none (zero or more items) *)
+  Lemma parse_args_text : forall args, Forall arg_ok args ->
+    map argf (filter keep (split comma (join [comma] (map arg_text args) ++ [nl]))) = args.
+  Proof.
+    intros [|a r] W; [|apply parse_args_text_ne; [discriminate|exact W]].
+    cbn [map join app]. rewrite split_one by (constructor; [discriminate|constructor]). reflexivity.
   Qed.
 
   (* ---- loops ---- *)
@@ -194,7 +213,7 @@ Section Render.
   (* C17, one entry *)
   Theorem parse_one_render e rest : rentry_ok e -> parse_one (elines e ++ rest) = ROk (entry_val e) rest.
   Proof.
-    intros (Sc&Ss&Sl&Vc&Vs&Vr&Vp&Tc&Ts&An&Aw&Bw&Wc&Ws&Dc&Dp).
+    intros (Sc&Ss&Sl&Vc&Vs&Vr&Vp&Tc&Ts&Aw&Bw&Wc&Ws&Dc&Dp).
     unfold CL.parse_one, elines. rewrite <- app_assoc. cbn [app].
     destruct (clean_not_sp _ Sc) as [S0 S1].
     assert (Hh : ctrim (header_line e) <> [] /\ starts_sp (header_line e) = false).
@@ -235,7 +254,8 @@ Section Render.
     - pose proof (ctrim_clean [] (r_source e) [sp] ac_nil ac_sp Sc) as E. exact E.
     - pose proof (ctrim_clean [sp] (r_target e) [] ac_sp ac_nil Tc) as E. rewrite app_nil_r in E. exact E.
     - unfold CL.parse_args. fold argf. change (map (fun e0 => let (k, v) := partition (ctrim e0) (s "=") in (ctrim k, ctrim v))) with (map argf).
-      apply (parse_args_text _ An Aw).
+      change (filter (fun e0 => negb (str_eqb (ctrim e0) []))) with (filter keep).
+      apply (parse_args_text _ Aw).
     - pose proof (ctrim_clean [sp] (r_whom e) [] ac_sp ac_nil Wc) as E. rewrite app_nil_r in E. exact E.
   Qed.
 
